@@ -27,6 +27,10 @@ BASES = {
     "loop-range": "name p\nversion 1.0\n\nfor int i in 0:4:2\n    G(i) | i\n    H | [i, i+1]\nK | 0\n",
     "loop-list": "name p\nversion 1.0\n\nfor float t in [0.5, 2]\n    G(t) | 0\n",
     "funcs": "name p\nversion 1.0\n\nG(sqrt(2)+log(x)**2, (1+2)*3) | 0\n",
+    # each kind of item as the LAST thing in the text (truncations and deletions next to the end of input)
+    "array-last": "name p\nversion 1.0\n\nG | 0\nfloat array A =\n    1.5, -2\n    3, pi\n",
+    "array-template-last": "name p\nversion 1.0\n\nfloat array A[1, 2] =\n    {P}\n",
+    "scalar-last": "name p\nversion 1.0\n\nG | 0\nint n = 3\n",
 }
 
 JUNK = ["$", ";", "\\", "@", "~", "?", "%", "é"]
